@@ -167,7 +167,9 @@ func c20One(r *rt.Rec, text string, memo bool, chanSize, bulk int) {
 				r.Violation("fault-swallowed/"+cls, fmt.Sprintf("driver call %s failed (after %d elements) but executing the statement returned %s", fired.Method, fs.Delivered(), what), w())
 			}
 			if el > 20*time.Second {
-				r.Violation("fault-slow/"+cls, fmt.Sprintf("the statement took %v to return after a driver failure", el), w())
+				// bounded time is decided by the watchdog (all-blocked rule, hard
+				// limit), not by a wall-clock threshold: only counted
+				r.Count("slow_returns_over_20s", 1)
 			}
 			if left := rt.Leaked(before, 2*time.Second); len(left) > 0 {
 				ww := w()
